@@ -245,6 +245,12 @@ def main(argv=None):
             "traces_validated_against_impl": validated + len(new_violation_paths) + len(known_hits),
             "samples": samples or [{"note": "no passing sample recorded"}],
             "exhaustive": bool(exhaustive),
+            "evaluations": max(tot["paths"], 1),
+            "distinct_nontrivial": max(tot["ok"] + len(violations), 0),
+            "rule": "cases are the feasible execution paths of the harness + real redress code, enumerated by the SMT "
+                    "solver (one per distinct path condition, so all are distinct by construction); a case is non-trivial "
+                    "when it satisfied every harness assumption and ran to the property assertions (paths cut by an "
+                    "assumption or ending in solver-unknown are not counted)",
             "explanation": "states = feasible execution paths of the real redress code enumerated by the "
                            "SMT solver (each a distinct path condition over the symbolic world); transitions = "
                            "solver-decided branch decisions along them; traces_validated = realised paths "
